@@ -5,6 +5,7 @@ Model side: `Geodesy/Model/Ops/Adapt.lean` (mirrors `adapt.rs`, `unitconvert.rs`
 generated from `units.rs` by the translator (`Gen.linearUnits`, `Gen.angularUnits`).
 -/
 import Geodesy.Model.Ops.Adapt
+import Geodesy.Model.Ops.Basic
 import Geodesy.Lemmas.Real
 import Mathlib.Tactic.FinCases
 
@@ -155,6 +156,110 @@ theorem suffix_factor_ne_zero (sfx : Str) (r : ℝ) (h : suffixFactor (R := ℝ)
     · split at h
       · injection h with h; rw [← h]; simp [one]
       · exact absurd h (by simp)
+
+/-! ### axisswap: the inverse undoes the forward -/
+
+theorem axisSgn_sq (v : ℝ) : Ops.axisSgn ℝ v * Ops.axisSgn ℝ v = 1 := by
+  show (if 0 ≤ v then |(Scalar.ofNatLit 1 : ℝ)| else -|(Scalar.ofNatLit 1 : ℝ)|) * (if 0 ≤ v then |(Scalar.ofNatLit 1 : ℝ)| else -|(Scalar.ofNatLit 1 : ℝ)|) = 1
+  split <;> simp
+
+theorem axisswap_aux (x : Coor ℝ) (p0 p1 p2 p3 : Fin 4) (a0 a1 a2 a3 : ℝ) (hnd : [p0, p1, p2, p3].Nodup)
+    (s0 : a0 * a0 = 1) (s1 : a1 * a1 = 1) (s2 : a2 * a2 = 1) (s3 : a3 * a3 = 1) :
+    let d : Coor ℝ := (((x.set 0 (x.get p0 * a0)).set 1 (x.get p1 * a1)).set 2 (x.get p2 * a2)).set 3 (x.get p3 * a3)
+    (((d.set p0 (d.get 0 * a0)).set p1 (d.get 1 * a1)).set p2 (d.get 2 * a2)).set p3 (d.get 3 * a3) = x := by
+  obtain ⟨x0, x1, x2, x3⟩ := x
+  fin_cases p0 <;> fin_cases p1 <;> fin_cases p2 <;> fin_cases p3 <;>
+    first
+    | (exfalso; revert hnd; decide)
+    | (simp [Coor.set, Coor.get, mul_assoc, s0, s1, s2, s3])
+
+/-- **axisswap with a full order: the inverse undoes the forward** -/
+theorem axisswap_roundtrip_full (c : Coor ℝ) (v0 v1 v2 v3 : ℝ)
+    (hnd : [Ops.axisPos ℝ v0, Ops.axisPos ℝ v1, Ops.axisPos ℝ v2, Ops.axisPos ℝ v3].Nodup) :
+    Ops.axisswapInvLoop ℝ (Ops.axisswapFwdLoop ℝ c [v0, v1, v2, v3] 0 c) [v0, v1, v2, v3] 0 (Ops.axisswapFwdLoop ℝ c [v0, v1, v2, v3] 0 c) = c :=
+  axisswap_aux c _ _ _ _ _ _ _ _ hnd (axisSgn_sq v0) (axisSgn_sq v1) (axisSgn_sq v2) (axisSgn_sq v3)
+
+theorem axisswap_aux3 (x : Coor ℝ) (p0 p1 p2 : Fin 4) (a0 a1 a2 : ℝ) (hnd : [p0, p1, p2].Nodup)
+    (h0 : p0.val < 3) (h1 : p1.val < 3) (h2 : p2.val < 3)
+    (s0 : a0 * a0 = 1) (s1 : a1 * a1 = 1) (s2 : a2 * a2 = 1) :
+    let d : Coor ℝ := ((x.set 0 (x.get p0 * a0)).set 1 (x.get p1 * a1)).set 2 (x.get p2 * a2)
+    ((d.set p0 (d.get 0 * a0)).set p1 (d.get 1 * a1)).set p2 (d.get 2 * a2) = x := by
+  obtain ⟨x0, x1, x2, x3⟩ := x
+  fin_cases p0 <;> fin_cases p1 <;> fin_cases p2 <;>
+    first
+    | (exfalso; revert hnd; decide)
+    | (exfalso; revert h0; decide)
+    | (exfalso; revert h1; decide)
+    | (exfalso; revert h2; decide)
+    | (simp [Coor.set, Coor.get, mul_assoc, s0, s1, s2])
+
+theorem axisswap_aux2 (x : Coor ℝ) (p0 p1 : Fin 4) (a0 a1 : ℝ) (hnd : [p0, p1].Nodup)
+    (h0 : p0.val < 2) (h1 : p1.val < 2) (s0 : a0 * a0 = 1) (s1 : a1 * a1 = 1) :
+    let d : Coor ℝ := (x.set 0 (x.get p0 * a0)).set 1 (x.get p1 * a1)
+    (d.set p0 (d.get 0 * a0)).set p1 (d.get 1 * a1) = x := by
+  obtain ⟨x0, x1, x2, x3⟩ := x
+  fin_cases p0 <;> fin_cases p1 <;>
+    first
+    | (exfalso; revert hnd; decide)
+    | (exfalso; revert h0; decide)
+    | (exfalso; revert h1; decide)
+    | (simp [Coor.set, Coor.get, mul_assoc, s0, s1])
+
+/-- an order of three: the fourth element is not touched, the first three come back -/
+theorem axisswap_roundtrip_three (c : Coor ℝ) (v0 v1 v2 : ℝ)
+    (hnd : [Ops.axisPos ℝ v0, Ops.axisPos ℝ v1, Ops.axisPos ℝ v2].Nodup)
+    (h0 : (Ops.axisPos ℝ v0).val < 3) (h1 : (Ops.axisPos ℝ v1).val < 3) (h2 : (Ops.axisPos ℝ v2).val < 3) :
+    Ops.axisswapInvLoop ℝ (Ops.axisswapFwdLoop ℝ c [v0, v1, v2] 0 c) [v0, v1, v2] 0 (Ops.axisswapFwdLoop ℝ c [v0, v1, v2] 0 c) = c :=
+  axisswap_aux3 c _ _ _ _ _ _ hnd h0 h1 h2 (axisSgn_sq v0) (axisSgn_sq v1) (axisSgn_sq v2)
+
+/-- an order of two (`order=2,1`: the usual exchange of the first two axes) -/
+theorem axisswap_roundtrip_two (c : Coor ℝ) (v0 v1 : ℝ)
+    (hnd : [Ops.axisPos ℝ v0, Ops.axisPos ℝ v1].Nodup) (h0 : (Ops.axisPos ℝ v0).val < 2) (h1 : (Ops.axisPos ℝ v1).val < 2) :
+    Ops.axisswapInvLoop ℝ (Ops.axisswapFwdLoop ℝ c [v0, v1] 0 c) [v0, v1] 0 (Ops.axisswapFwdLoop ℝ c [v0, v1] 0 c) = c :=
+  axisswap_aux2 c _ _ _ _ hnd h0 h1 (axisSgn_sq v0) (axisSgn_sq v1)
+
+/-- the position a signed axis number stands for: `±(k+1)` is axis `k` -/
+theorem axisPos_signed (k : Fin 4) (neg : Bool) :
+    Ops.axisPos ℝ (if neg then -(((k : ℕ) : ℝ) + 1) else (((k : ℕ) : ℝ) + 1)) = k := by
+  have habs : |(if neg then -(((k : ℕ) : ℝ) + 1) else (((k : ℕ) : ℝ) + 1))| = ((k : ℕ) : ℝ) + 1 := by
+    have : (0 : ℝ) ≤ ((k : ℕ) : ℝ) + 1 := by positivity
+    cases neg
+    · simp [abs_of_nonneg this]
+    · simp only [if_true, abs_neg, abs_of_nonneg this]
+  unfold Ops.axisPos
+  simp only [scalar_abs, habs, scalar_ofNatLit]
+  show (if h : realToUsize (((k : ℕ) : ℝ) + 1 - ((1 : ℕ) : ℝ)) < 4 then (⟨realToUsize (((k : ℕ) : ℝ) + 1 - ((1 : ℕ) : ℝ)), h⟩ : Fin 4) else 3) = k
+  have hk : realToUsize (((k : ℕ) : ℝ) + 1 - ((1 : ℕ) : ℝ)) = k.val := by
+    unfold realToUsize
+    have : (((k : ℕ) : ℝ) + 1 - ((1 : ℕ) : ℝ)) = (((k.val : ℤ)) : ℝ) := by push_cast; ring
+    rw [this, Int.floor_intCast]
+    have hk4 := k.isLt
+    omega
+  rw [dif_pos (by rw [hk]; exact k.isLt)]
+  exact Fin.ext hk
+
+/-- **`axisswap order=…` with the four axes in any order and any signs: the inverse undoes the forward** -/
+theorem axisswap_roundtrip_signed (c : Coor ℝ) (k0 k1 k2 k3 : Fin 4) (n0 n1 n2 n3 : Bool) (hnd : [k0, k1, k2, k3].Nodup) :
+    let v (k : Fin 4) (neg : Bool) : ℝ := if neg then -(((k : ℕ) : ℝ) + 1) else (((k : ℕ) : ℝ) + 1)
+    let order := [v k0 n0, v k1 n1, v k2 n2, v k3 n3]
+    Ops.axisswapInvLoop ℝ (Ops.axisswapFwdLoop ℝ c order 0 c) order 0 (Ops.axisswapFwdLoop ℝ c order 0 c) = c := by
+  intro v order
+  apply axisswap_roundtrip_full
+  simp only [v, axisPos_signed]
+  exact hnd
+
+example : [(1 : Fin 4), 0, 2, 3].Nodup := by decide
+
+/-- ... for a whole coordinate set, through the operator's two directions -/
+theorem axisswap_sem_roundtrip (p : Parsed ℝ) (v0 v1 v2 v3 : ℝ) (ho : p.series? (S "order") = some [v0, v1, v2, v3])
+    (hnd : [Ops.axisPos ℝ v0, Ops.axisPos ℝ v1, Ops.axisPos ℝ v2, Ops.axisPos ℝ v3].Nodup) (data : List (Coor ℝ)) :
+    Ops.axisswapSem ℝ p .inv (Ops.axisswapSem ℝ p .fwd data).1 = (data, data.length) := by
+  simp only [Ops.axisswapSem, ho, List.map_map, List.length_map]
+  congr 1
+  conv_rhs => rw [← List.map_id data]
+  apply List.map_congr_left
+  intro c _
+  exact axisswap_roundtrip_full c v0 v1 v2 v3 hnd
 
 /-! ### non-vacuity -/
 
